@@ -288,34 +288,45 @@ def imp_calls(cx, outer, inner):
 
 
 def r09_3(cx):
-    """no prefilter when anchored; flag plumbing of try_find_fwd / try_find_overlapping_fwd"""
+    """no prefilter when anchored, decided on the path summaries of try_find_fwd / try_find_overlapping_fwd: on every path the
+    prefilter argument of the driver is None unless the path decided !input.get_anchored().is_anchored(), and a prefilter that
+    is passed is aut.prefilter()"""
+    from acverif.sym import summarize, canon, cstr
     for outer, inner in ((FIND, FIND_IMP), (OVER, OVER_IMP)):
-        b, calls = imp_calls(cx, outer, inner)
-        inp = param_of_type(b, r'util::search::Input<')
-        ag = bool_gates(b, lambda x: is_call(x, r'Anchored::is_anchored$') and is_call(peel(expand_vars(b, x[2][0])), r'Input::get_anchored$') and peel(peel(expand_vars(b, x[2][0]))[2][0]) == inp)
-        t_edges = [e for g in ag for e in g[2]]
-        f_edges = [e for g in ag for e in g[3]]
-        n = 0
-        for bi, ct in calls:
+        b = cx.body(outer)
+        inp = cstr(param_of_type(b, r'util::search::Input<'))
+        aut = cstr(param_at(b, 1))
+        rows = [r for r in summarize(cx.facts, b) if r.end in ('return', 'diverge')]
+        n = with_pre = 0
+        why = None
+        for r in rows:
+            cs = [canon(c) for c in r.calls('^' + re.escape(inner) + '$')]
+            if not cs:
+                continue
+            if len(cs) != 1:
+                why = why or 'a path calls the driver %d times' % len(cs)
+                continue
             n += 1
-            pre = ct[2][2]
-            if is_agg(pre, r'Option$', 'Some'):
-                ok = bool(ag) and not reachable_without(b, [bi], f_edges)
-                src = expand_vars(b, pre[3]['0'])
-                okp = any(is_call(s, r'Automaton::prefilter$') for s in subterms(src))
-                cx.report('R09.3', b, 'pre:Some@%d' % n, ok and okp, 'a prefilter is passed only on the unanchored edge and is aut.prefilter()' if ok and okp else
-                          'a prefilter is handed to the search on a path where the input may be anchored' if not ok else 'prefilter does not come from aut.prefilter()', line_of(b, bi))
-            elif is_agg(pre, r'Option$', 'None'):
-                cx.report('R09.3', b, 'pre:None@%d' % n, True, 'no prefilter on this path', line_of(b, bi))
-            else:
-                cx.bad('R09.3', b, 'pre:?@%d' % n, 'prefilter argument %s cannot be classified' % tstr(pre, 80), line_of(b, bi))
-        cx.floor('R09.3', 'calls of %s' % inner.split('::')[-1], n, 2)
-        # every path from the anchored edge reaches only pre=None calls
-        for bi, ct in calls:
-            if is_agg(ct[2][2], r'Option$', 'Some'):
-                for _, tg in t_edges:
-                    if bi in b.reach(tg):
-                        cx.bad('R09.3', b, 'anchored-edge-reaches-prefilter', 'the anchored edge reaches a call with a prefilter', line_of(b, bi))
+            pre = cs[0][2][2]
+            anch = None
+            for c, v in r.conds:
+                cc = canon(c)
+                if is_call(cc, r'Anchored::is_anchored$') and cstr(cc[2][0]) in ('util::search::Input::get_anchored(%s)' % inp, '%s.anchored' % inp):
+                    anch = v
+            if is_agg(pre, r'Option$', 'None'):
+                continue
+            with_pre += 1
+            if anch is not False:
+                why = why or 'a prefilter is handed to the search on a path where the input may be anchored'
+            src = pre[3]['0'] if is_agg(pre, r'Option$', 'Some') else pre
+            pf = 'automaton::Automaton::prefilter(%s)' % aut
+            if not (cstr(src) in (pf, '(%s as Some).0' % pf) or (is_call(src, r'Option::unwrap$') and cstr(src[2][0]) == pf)):
+                why = why or 'the prefilter passed is %s, not aut.prefilter()' % tstr(canon(src), 100)
+        if n == 0:
+            why = why or 'no path calls the driver'
+        if with_pre == 0:
+            why = why or 'no path hands the prefilter to the driver'
+        cx.report('R09.3', b, 'prefilter-arg', why is None, 'the driver receives aut.prefilter() only on paths that decided !input.get_anchored().is_anchored(); None otherwise (%d calling paths, %d with a prefilter)' % (n, with_pre) if why is None else why)
 
 
 def r09_4(cx):
@@ -465,16 +476,23 @@ def r10_3(cx):
             cx.report('R10.3', b, 'cursor-def:%s' % (kind or 'other'), kind is not None,
                       'cursor definition: %s' % kind if kind else 'cursor is assigned %s (allowed: input.start(), +1, a prefilter candidate for get_span() or for cursor..input.end())' % tstr(v, 160), line_of(b, db, di))
     g = cx.body('automaton::get_match')
-    t = expand_vars(g, g.def_term(0) or g.local_term(0))
-    ok = False
-    p_sid, p_index, p_at = param_at(g, 2), param_at(g, 3), param_at(g, 4)
-    if is_call(t, r'util::search::Match::new$'):
-        pid, rg = t[2][0], peel(t[2][1])
-        okpid = is_call(pid, r'Automaton::match_pattern$') and peel(pid[2][1]) == p_sid and peel(pid[2][2]) == p_index
-        if is_agg(rg, r'core::ops::Range$'):
-            s, e = rg[3]['start'], rg[3]['end']
-            oklen = s[0] == 'op' and s[1] == 'Sub' and s[2] == p_at and is_call(s[3], r'Automaton::pattern_len$') and s[3][2][1] == pid and e == p_at
-            ok = okpid and oklen
+    from acverif.sym import summarize, canon, cstr, teval, by_cstr
+    grows = [r for r in summarize(cx.facts, g) if r.end == 'return']
+    ok = len(grows) == 1
+    t = canon(grows[0].ret) if ok else ('s', '%d paths' % len(grows))
+    if ok:
+        AUT, SID, IDX, AT = (cstr(param_at(g, i)) for i in (1, 2, 3, 4))
+        PID = 'automaton::Automaton::match_pattern(%s, %s, %s)' % (AUT, SID, IDX)
+        ok = is_call(t, r'util::search::Match::(new|must)$') and cstr(t[2][0]) == PID
+        rg = t[2][1] if ok else None
+        if ok and is_agg(rg, r'core::ops::Range$|util::search::Span$') and isinstance(rg[3], dict):
+            try:
+                at = by_cstr({AT: 50, 'automaton::Automaton::pattern_len(%s, %s)' % (AUT, PID): 7})
+                ok = teval(rg[3]['start'], at) == 43 and teval(rg[3]['end'], at) == 50
+            except Exception:
+                ok = False
+        else:
+            ok = False
     cx.report('R10.3', g, 'get_match', ok, 'get_match = Match::new(match_pattern(sid, index), at - pattern_len(pid) .. at)' if ok else 'get_match builds %s' % tstr(t, 200))
 
 
